@@ -61,6 +61,54 @@ theorem mem_sect {e : Err} {p : Bool} {f : F} {cs : List (List Err)} (h : e ∈ 
 @[simp] theorem mem_atMost (e : Err) (f : F) (v hi : Int) : e ∈ atMost f v hi ↔ hi < v ∧ e = (f, .range) := by
   unfold atMost; split <;> simp [*] <;> omega
 
+@[simp] theorem missing_eq_nil (p : Bool) (f : F) : missing p f = [] ↔ p = true := by
+  unfold missing; cases p <;> simp
+
+@[simp] theorem mem_missing (e : Err) (p : Bool) (f : F) : e ∈ missing p f ↔ p = false ∧ e = (f, .empty) := by
+  unfold missing; cases p <;> simp
+
+@[simp] theorem valPorts_eq_nil (a b : F) (h q t : Int) :
+    valPorts a b h q t = [] ↔ ¬ (h ≠ 0 ∧ h = t) ∧ ¬ (h = 0 ∧ q = 0 ∧ t = 0) := by
+  unfold valPorts
+  by_cases hc : h ≠ 0 ∧ h = t
+  · rw [if_pos hc]
+    constructor
+    · intro x; cases x
+    · intro x; exact absurd hc x.1
+  · rw [if_neg hc]
+    by_cases hz : h = 0 ∧ q = 0 ∧ t = 0
+    · rw [if_pos hz]
+      constructor
+      · intro x; cases x
+      · intro x; exact absurd hz x.2
+    · rw [if_neg hz]; exact ⟨fun _ => ⟨hc, hz⟩, fun _ => rfl⟩
+
+theorem mem_valPorts (e : Err) (a b : F) (h q t : Int) :
+    e ∈ valPorts a b h q t ↔ ((h ≠ 0 ∧ h = t) ∧ e = (b, .cross)) ∨
+      (¬ (h ≠ 0 ∧ h = t) ∧ (h = 0 ∧ q = 0 ∧ t = 0) ∧ e = (a, .allZero)) := by
+  unfold valPorts
+  by_cases hc : h ≠ 0 ∧ h = t
+  · rw [if_pos hc, List.mem_singleton]
+    constructor
+    · intro x; exact Or.inl ⟨hc, x⟩
+    · rintro (⟨_, x⟩ | ⟨n, _⟩)
+      · exact x
+      · exact absurd hc n
+  · rw [if_neg hc]
+    by_cases hz : h = 0 ∧ q = 0 ∧ t = 0
+    · rw [if_pos hz, List.mem_singleton]
+      constructor
+      · intro x; exact Or.inr ⟨hc, hz, x⟩
+      · rintro (⟨y, _⟩ | ⟨_, _, x⟩)
+        · exact absurd y hc
+        · exact x
+    · rw [if_neg hz]
+      constructor
+      · intro x; cases x
+      · rintro (⟨y, _⟩ | ⟨_, y, _⟩)
+        · exact absurd y hc
+        · exact absurd y hz
+
 @[simp] theorem ite_cons_eq_nil (p : Prop) [Decidable p] (a : List Err) (e : Err) (es : List Err) :
     (if p then a else e :: es) = [] ↔ p ∧ a = [] := by
   split <;> simp [*]
@@ -93,10 +141,12 @@ theorem valKv_eq_nil (c : Config) : valKv c = [] ↔
         · simp [h4]
         · simp [h1, h2, h3, h4]
 
+set_option maxHeartbeats 4000000 in
 /-- Everything an accepted configuration satisfies, as one conjunction of plain facts. -/
 theorem accepted_meets (c : Config) (h : validate false c = []) (f : F) : violates c f = false := by
   simp [validate, valRatelimit, valAllow, valConn, valOpts, valKeyLen, valUpstream, valCache, valDnsdb,
-    valDns, valBackend, valGeo, valKv_eq_nil, valCheck, valWeb, valSb, valFilters, valIface, valNetwork] at h
+    valDns, valBackend, valGeo, valKv_eq_nil, valCheck, valWeb, valSb, valFilters, valIface, valNetwork,
+    valQueryLog, valFltGroups, valSrvGroups, valConnCheck, valAccess] at h
   cases f <;> simp [violates] <;> first | omega | (simp_all; done) | (simp_all; omega) | grind
 
 /-! ### "The reported property is an offending one", section by section -/
@@ -136,12 +186,11 @@ theorem names_geo (c : Config) (f : F) (k : Kind) (h : (f, k) ∈ valGeo c) :
   simp [valGeo, mem_firstOf_cons, mem_sect_iff] at h
   cases f <;> simp [violates] at h ⊢ <;> first | omega | (simp_all; done) | (simp_all; omega) | grind
 
-theorem names_check (c : Config) (f : F) (k : Kind) (h : (f, k) ∈ valCheck c) :
+theorem names_kv (c : Config) (f : F) (k : Kind) (h : (f, k) ∈ valKv c) :
     violates c f = true := by
-  simp only [valCheck, valKv, mem_firstOf_cons, mem_sect_iff, firstOf_nil, List.not_mem_nil, and_false,
+  simp only [valKv, mem_firstOf_cons, mem_sect_iff, firstOf_nil, List.not_mem_nil, and_false,
     or_false] at h
-  rcases h with h | ⟨_, h | ⟨_, h⟩⟩
-  · simp_all [violates]
+  rcases h with h | ⟨_, h⟩
   · simp_all [violates]
   · by_cases h1 : c.kvType = "backend"
     · simp [h1] at h; simp_all [violates]
@@ -152,6 +201,41 @@ theorem names_check (c : Config) (f : F) (k : Kind) (h : (f, k) ∈ valCheck c) 
         · by_cases h4 : c.kvType = "redis"
           · simp [h4] at h; simp_all [violates]
           · simp [h1, h2, h3, h4] at h; simp_all [violates]
+
+theorem names_check (c : Config) (f : F) (k : Kind) (h : (f, k) ∈ valCheck c) :
+    violates c f = true := by
+  simp only [valCheck, mem_firstOf_cons, mem_sect_iff, firstOf_nil, List.not_mem_nil, and_false,
+    or_false] at h
+  rcases h with h | ⟨_, h | ⟨_, h | ⟨_, h⟩⟩⟩
+  · simp_all [violates]
+  · split at h <;> simp_all [violates]
+  · split at h <;> simp_all [violates]
+  · exact names_kv c f k h
+
+theorem names_querylog (c : Config) (f : F) (k : Kind) (h : (f, k) ∈ valQueryLog c) :
+    violates c f = true := by
+  simp [valQueryLog, mem_firstOf_cons, mem_sect_iff] at h
+  cases f <;> simp [violates] at h ⊢ <;> first | omega | (simp_all; done) | (simp_all; omega) | grind
+
+theorem names_fltgroups (c : Config) (f : F) (k : Kind) (h : (f, k) ∈ valFltGroups c) :
+    violates c f = true := by
+  simp [valFltGroups, mem_firstOf_cons, mem_sect_iff] at h
+  cases f <;> simp [violates] at h ⊢ <;> first | omega | (simp_all; done) | (simp_all; omega) | grind
+
+theorem names_srvgroups (c : Config) (f : F) (k : Kind) (h : (f, k) ∈ valSrvGroups c) :
+    violates c f = true := by
+  simp [valSrvGroups, mem_firstOf_cons, mem_sect_iff, mem_valPorts] at h
+  cases f <;> simp [violates] at h ⊢ <;> first | omega | (simp_all; done) | (simp_all; omega) | grind
+
+theorem names_conncheck (c : Config) (f : F) (k : Kind) (h : (f, k) ∈ valConnCheck c) :
+    violates c f = true := by
+  simp [valConnCheck, mem_firstOf_cons, mem_sect_iff] at h
+  cases f <;> simp [violates] at h ⊢ <;> first | omega | (simp_all; done) | (simp_all; omega) | grind
+
+theorem names_access (c : Config) (f : F) (k : Kind) (h : (f, k) ∈ valAccess c) :
+    violates c f = true := by
+  simp [valAccess, mem_firstOf_cons, mem_sect_iff] at h
+  cases f <;> simp [violates] at h ⊢ <;> first | omega | (simp_all; done) | (simp_all; omega) | grind
 
 theorem names_web (c : Config) (f : F) (k : Kind) (h : (f, k) ∈ valWeb c) :
     violates c f = true := by
@@ -179,7 +263,11 @@ theorem names_filters (c : Config) (f : F) (k : Kind) (h : (f, k) ∈ valFilters
 
 theorem names_iface (c : Config) (f : F) (k : Kind) (h : (f, k) ∈ valIface c) :
     violates c f = true := by
-  unfold valIface at h; split at h <;> simp_all [violates]
+  unfold valIface at h
+  split at h
+  · simp [mem_firstOf_cons] at h
+    cases f <;> simp [violates] at h ⊢ <;> first | omega | (simp_all; done) | (simp_all; omega) | grind
+  · simp at h
 
 theorem names_network (c : Config) (f : F) (k : Kind) (h : (f, k) ∈ valNetwork c) :
     violates c f = true := by
